@@ -1229,7 +1229,7 @@ def main(tier: str, seed: int, args) -> int:
     us = units(tier, seed)
     if args.units:
         us = us[: args.units]
-    stats, viols, errors, done = runner.run_units("sim.c17", us, wall_cap=170 if tier == "quick" else 3300)
+    stats, viols, errors, done = runner.run_units("sim.c17", us, wall_cap=600 if tier == "quick" else 3300)
     wall = time.time() - t0
     c = stats.c
     runs = c.get("runs", 0)
